@@ -222,11 +222,10 @@ pub fn check_wire(call: &Call, world: &mut World, ok: bool) -> Vec<Violation> {
                 with.extend(tail.iter().map(|b| Some(*b)));
                 let mut without = data;
                 without.extend(tail.iter().map(|b| Some(*b)));
-                // a challenge of 0 may be echoed or omitted
-                let second = match tx.get(1) {
-                    Some(t) if chal == 0 && t.2.len() == without.len() => Pat::Mask(without),
-                    _ => Pat::Mask(with),
-                };
+                // a server that answers the handshake with "0" uses no challenge: the data request then
+                // carries no challenge field at all (reference implementations send it only when non-zero;
+                // four extra bytes would shift the request flags such a server reads)
+                let second = if chal == 0 { Pat::Mask(without) } else { Pat::Mask(with) };
                 vec![Pat::Mask(hs), second]
             })
         }
@@ -543,7 +542,7 @@ impl Prop for C09 {
         vec![
             "request layouts come from the specifications (A2S, GameSpy, Quake, Unreal 2, RakNet, wiki.vg handshake with big-endian port); legacy Minecraft request literals, FFOW and Savage 2 requests are code-derived golden".into(),
             "default ports are a golden snapshot of the definitions table at the pinned commit plus documented defaults of the hand-written modules".into(),
-            "a Java ping packet with 0 or 8 payload bytes after the status request is tolerated; a GameSpy 3 challenge of 0 may be echoed or omitted".into(),
+            "a Java ping packet with 0 or 8 payload bytes after the status request is tolerated; a GameSpy 3 challenge of 0 means 'no challenge': the data request carries no challenge field".into(),
             "master-server requests are checked by C16; the definition-driven entry point by C14".into(),
         ]
     }
